@@ -183,10 +183,16 @@ def build_env(case, tables=None):
     _memoise_calendars()
     t = tables if tables is not None else tables_from_case(case)
     rate = t["rate"]
+    transformer = case["transformer"]
+    if isinstance(transformer, list):
+        # ["fitted", k]: the caller hands over a scaler already fitted on the first k feature rows (documented: a
+        # transformer that is already fit is used as it is)
+        from sklearn.preprocessing import StandardScaler
+        transformer = StandardScaler().fit(t["X"].iloc[:transformer[1]])
     kwargs = dict(
         X=t["X"].copy(), Y=t["Y"].copy(),
         start=_bound(case, "start"), end=_bound(case, "end"),
-        transformer=case["transformer"],
+        transformer=transformer,
         transformer_end=None if case.get("transformer_end") is None else day(case, case["transformer_end"]),
         rate=None if rate is None else rate.copy(),
         spread=case["spread"], window=case["window"], stride=case["stride"], clip=case["clip"],
